@@ -46,7 +46,8 @@ def requests(tier, mc=False):
     if mc:
         meths = ("GET", "FOO")
     else:
-        meths = ("GET", "POST", "FOO", "") if tier == "quick" else ("GET", "POST", "FOO", "", "*")
+        # unknown methods incl. look-alikes of known ones (same length and first letter, other case, one letter off)
+        meths = ("GET", "POST", "FOO", "", "GOT", "Get", "PUX") if tier == "quick" else ("GET", "POST", "FOO", "", "*", "GOT", "Get", "get", "PUX", "HEAP", "DELETX", "POSTS")
     return [{"p": b(p), "m": m} for p in paths for m in meths]
 
 
